@@ -1,6 +1,7 @@
+\* history-free (VIEW StateView): builder sequences of ANY length, <= 1 route per sub-app, 1 host sub-app, 2 Cors values, 1 handler kind
 CONSTANTS
   Pats = {"/a", "/*"}
-  HKinds = {"plain", "ownO"}
+  HKinds = {"ownO"}
   HostPats = {"*.test"}
   CorsCat <- Cat2
   MaxCalls = 1000000
